@@ -4,6 +4,8 @@ import (
 	"encoding/json"
 	"fmt"
 	"os"
+	"path/filepath"
+	"strings"
 	"testing"
 
 	"github.com/fufuok/cache/zzverif/stats"
@@ -77,56 +79,121 @@ func TestC07E2(t *testing.T) { runE2(t, "C07") }
 func TestC08E2(t *testing.T) { runE2(t, "C08") }
 func TestC13(t *testing.T) { runE2(t, "C13") }
 
+func TestC16(t *testing.T) {
+	rapid.Check(t, func(rt *rapid.T) {
+		p := genC16(rt)
+		stats.Inc("programs")
+		v, execs, nt := exploreStall(p)
+		if v != nil {
+			writeReplay(v)
+			rt.Fatalf("VIOLATION %s\nprogram:\n%sschedule: %s", v.Short(), p.Text(), v.Sched.String())
+		}
+		stats.Sample(map[string]interface{}{"program": p.Text(), "stall_points_explored": execs, "nontrivial": nt})
+	})
+}
+
+// replayViolation re-executes a stored violation against the current tree and
+// returns the reproduced violation (nil if the tree no longer shows it).
+func replayViolation(v *Violation, deep bool) (*Violation, string) {
+	if v.Engine != "E2" {
+		return replayOtherV(v), "sequential re-execution"
+	}
+	p := v.Program
+	nlay, nexp := uint64(64), uint64(2)
+	cfg := sweepCfg{maxSingle: 600, pct3: 12, pct4: 6, walks: 12}
+	if deep {
+		nlay, nexp = 512, 24
+		cfg = sweepCfg{maxSingle: 900, pct3: 30, pct4: 20, walks: 30, double: true, maxDouble: 8000}
+	}
+	if v.Sched != nil {
+		// placement of default-hashed keys differs between processes: sweep the layout seed
+		orig := p.Layout
+		for i := uint64(0); i <= nlay; i++ {
+			p.Layout = orig + i*0x9e3779b97f4a7c15
+			(&explorer{p: p}).resolve()
+			if out := execute(p, v.Sched, execOpts{}); out.Viol != nil {
+				out.Viol.Property = v.Property
+				return out.Viol, fmt.Sprintf("same schedule, layout seed %#x", p.Layout)
+			}
+		}
+		p.Layout = orig
+	}
+	orig := p.Layout
+	for i := uint64(0); i < nexp; i++ {
+		p.Layout = orig + i*0x9e3779b97f4a7c15
+		e := &explorer{p: p, cfg: cfg, prop: v.Property}
+		if nv := e.explore(); nv != nil {
+			return nv, fmt.Sprintf("schedule sweep, layout seed %#x", p.Layout)
+		}
+	}
+	p.Layout = orig
+	return nil, ""
+}
+
+func loadViolation(path string) (*Violation, error) {
+	b, err := os.ReadFile(path)
+	if err != nil {
+		return nil, err
+	}
+	var v Violation
+	if err := json.Unmarshal(b, &v); err != nil {
+		return nil, err
+	}
+	return &v, nil
+}
+
 // TestReplay re-executes a stored violation against the current tree.
 func TestReplay(t *testing.T) {
 	in := os.Getenv("VERIF_REPLAY_IN")
 	if in == "" {
 		t.Skip("no VERIF_REPLAY_IN")
 	}
-	b, err := os.ReadFile(in)
+	v, err := loadViolation(in)
 	if err != nil {
-		t.Fatalf("read replay: %v", err)
+		t.Fatalf("replay file: %v", err)
 	}
-	var v Violation
-	if err := json.Unmarshal(b, &v); err != nil {
-		t.Fatalf("parse replay: %v", err)
-	}
-	if v.Engine != "E2" {
-		replayOther(t, &v)
-		return
-	}
-	p := v.Program
-	report := func(nv *Violation, how string) {
-		nv.Property = v.Property
+	if nv, how := replayViolation(v, true); nv != nil {
 		writeReplay(nv)
-		t.Fatalf("REPRODUCED (%s): %s\nprogram:\n%sschedule: %s", how, nv.Short(), p.Text(), nv.Sched.String())
-	}
-	if v.Sched != nil {
-		(&explorer{p: p}).resolve()
-		if out := execute(p, v.Sched, execOpts{}); out.Viol != nil {
-			report(out.Viol, "same schedule, same layout seed")
-		}
-		// placement of default-hashed keys differs between processes: sweep the layout seed
-		orig := p.Layout
-		for i := uint64(1); i <= 512; i++ {
-			p.Layout = orig + i*0x9e3779b97f4a7c15
-			(&explorer{p: p}).resolve()
-			if out := execute(p, v.Sched, execOpts{}); out.Viol != nil {
-				report(out.Viol, fmt.Sprintf("same schedule, layout seed %#x", p.Layout))
-			}
-		}
-		p.Layout = orig
-	}
-	cfg := sweepCfg{maxSingle: 900, pct3: 30, pct4: 20, walks: 30, double: true, maxDouble: 8000}
-	orig := p.Layout
-	for i := uint64(0); i < 24; i++ {
-		p.Layout = orig + i*0x9e3779b97f4a7c15
-		e := &explorer{p: p, cfg: cfg, prop: v.Property}
-		if nv := e.explore(); nv != nil {
-			report(nv, fmt.Sprintf("schedule sweep, layout seed %#x", p.Layout))
-		}
+		t.Fatalf("REPRODUCED (%s): %s", how, nv.Short())
 	}
 	t.Logf("replay did not reproduce on this tree")
+}
+
+// TestRegress replays the committed shrunk reproductions of earlier findings
+// that belong to the property being checked (the seconds-long replay tier).
+func TestRegress(t *testing.T) {
+	dir, prop := os.Getenv("VERIF_REGRESS"), os.Getenv("VERIF_PROP")
+	if dir == "" || prop == "" {
+		t.Skip("no regress dir")
+	}
+	files, _ := filepath.Glob(filepath.Join(dir, "*.json"))
+	for _, f := range files {
+		v, err := loadViolation(f)
+		if err != nil {
+			t.Fatalf("%s: %v", f, err)
+		}
+		if v.Property != prop && !strings.Contains(filepath.Base(f), prop) {
+			continue
+		}
+		want := v.Property
+		v.Property = prop
+		stats.Inc("regress_replays")
+		if nv, how := replayViolation(v, false); nv != nil {
+			nv.Property = prop
+			writeReplay(nv)
+			t.Fatalf("REGRESSION %s (found for %s) reproduces (%s): %s", filepath.Base(f), want, how, nv.Short())
+		}
+	}
+}
+
+func replayOtherV(v *Violation) *Violation {
+	switch v.Engine {
+	case "E1":
+		return replayE1(v)
+	case "E1-C07":
+		return replayC07(v)
+	}
+	return nil
 }
 
 func replayOther(t *testing.T, v *Violation) {
@@ -147,6 +214,7 @@ func runE1(t *testing.T, focus string) {
 	rapid.Check(t, func(rt *rapid.T) { runE1Case(rt, f) })
 }
 
+func TestC07E1(t *testing.T) { rapid.Check(t, runC07Case) }
 func TestC01(t *testing.T)   { runE1(t, "C01") }
 func TestC09(t *testing.T)   { runE1(t, "C09") }
 func TestC06E1(t *testing.T) { runE1(t, "C06") }
